@@ -108,6 +108,29 @@ def numeric_compare(m, d, order, point):
     for i in range(nS):
         if not tol(got[i], float(sp["pure"][i])):
             return ("numeric-pure", "pureOdeVector[%d] = %r, expected %r" % (i, got[i], float(sp["pure"][i])))
+    # a slow system: every parameter a million million times smaller.  Small is not zero: judged RELATIVE to the exact value
+    # (entries that are small only through cancellation between terms are left out)
+    slow = dict(point)
+    for p in d["params"]:
+        slow[p] = point[p] / 10 ** 12
+    try:
+        sp2 = mg.spec_values(reorder(d, order), slow)
+    except Exception:       # noqa: BLE001  (a singular point of a saturating rate)
+        return None
+    m.parameters = {p: float(slow[p]) for p in d["params"]}
+    try:
+        rel = lambda a, b: abs(a - b) <= 1e-7 * abs(b)
+        if nE:
+            got = np.asarray(m.eventRateVector(x, t), float).ravel()
+            for j in range(nE):
+                b = float(sp2["rates"][j])
+                if b != 0 and not rel(got[j], b):
+                    return ("numeric-rate-vector-small", "with every parameter scaled by 1e-12, eventRateVector[%d] = %r, the definition gives %r"
+                            % (j, got[j], b))
+        # (the ode entries are not judged here: jump sizes such as -(1 + mu/2) + (mu + 1) cancel in floating point, and what is
+        #  left of a 1e-12-sized term is then legitimately inexact; the rates are single expressions)
+    finally:
+        m.parameters = {p: float(point[p]) for p in d["params"]}
     return None
 
 
